@@ -5,8 +5,38 @@ package main
 var registry = []propCfg{
 	{
 		ID: "C18", Level: "exploration",
-		Rule: "rapid generates a route table in the fragment both routers document (literal roots; literal and {var} route segments; shared literal pool; ~55% of routes derived from a sibling) and 4-12 requests derived from the table plus near-miss mutations; each request is dispatched on twin containers differing only in Router(). Non-trivial: at least two routes of the table match the request path, or the outcome is an error class other than 404. Distinct: FNV-64 of the canonical JSON of the whole case.",
+		Rule:  "rapid generates a route table in the fragment both routers document (literal roots; literal and {var} route segments; shared literal pool; ~55% of routes derived from a sibling) and 4-12 requests derived from the table plus near-miss mutations; each request is dispatched on twin containers differing only in Router(). Non-trivial: at least two routes of the table match the request path, or the outcome is an error class other than 404. Distinct: FNV-64 of the canonical JSON of the whole case.",
 		Parts: []partCfg{{Test: "TestC18", Quick: 20000, Thorough: 250000}},
 		Assum: []string{"differential oracle: a defect both routers share is invisible to this check (C01/C02 cover it with the reference model)", "Dispatch is only given clean paths; unclean paths go through ServeHTTP where net/http's mux normalises first"},
+	},
+	{
+		ID: "C14", Level: "exploration",
+		Rule:  "rapid generates a route table (CurlyRouter: literals, {v}, {v:re}, pre{v}suf, tail, :verb; RouterJSR311: the same without affix, verb and tail) and table-derived requests with near-miss mutations whose path p has at least one segment and no trailing slash; p and p+'/' are sent to the same container with identical method, headers and body (Dispatch; ServeHTTP too when the roots have distinct mux patterns; net/http 3xx redirects are skipped and counted). Outcomes must agree in status, invoked route, path parameter map and Allow set. Non-trivial: p is routed to a function or answered 405 (a pair of 404s is trivial). Distinct: FNV-64 of the case JSON.",
+		Parts: []partCfg{{Test: "TestC14", Quick: 20000, Thorough: 250000}},
+		Assum: []string{"metamorphic oracle: compares the framework with itself on two inputs, so a defect that treats p and p/ alike is invisible here (C01, C02, C04 cover it)"},
+	},
+	{
+		ID: "C01", Level: "exploration",
+		Rule:  "rapid generates a route table for a drawn router (CurlyRouter: literals, {v}, {v:re}, pre{v}suf, tail, :verb; RouterJSR311: literals, {v}, {v:re}, tail; Consumes/Produces lists, If-conditions, AllowedMethodsWithoutContentType; recording filters on container, service and route level) and 1-12 requests, 90% derived from a route of the table plus 0-2 near-miss mutations (segment edit/drop/append, verb, method, Content-Type, Accept, body, condition header), 10% free-form including hostile paths. Inside every invocation of a route function the request is judged against that route's declaration with the three-valued reference model (only a definite N alarms) and every filter's view of the selected route is compared with the route that ran. Non-trivial: a function ran although another route also matches the path, or nothing ran although some route's template matches the path. Distinct: FNV-64 of the case JSON.",
+		Parts: []partCfg{{Test: "TestC01", Quick: 20000, Thorough: 200000}},
+		Assum: []string{"the reference model (internal/model) restates the declaration semantics from the property text and the documentation; inputs it leaves unspecified (U) never alarm", "templates, regexes and media types come from curated pools (DESIGN.md 3.1)"},
+	},
+	{
+		ID: "C02", Level: "exploration",
+		Rule:  "same generator as C01 (hostile paths included). Every request is dispatched with trace logging off and on. Totality: no panic, at most one route function, status is the handler's or 404/405/415/406, a 405 carries Allow, tracing changes nothing. Exactness: the observed (status, route, Allow set) must be a member of the set the staged reference rule admits (best root -> path -> conditions -> method -> Content-Type -> Accept -> maximal route); unclean paths and requests with more than 12 unspecified atoms are totality-only. Non-trivial: a decisive case (singleton admissible set) whose outcome is produced after at least one earlier stage was passed (404 no-route/condition, 405, 415, 406) or a success with at least two path-matching routes. Distinct: FNV-64 of the case JSON.",
+		Parts: []partCfg{{Test: "TestC02", Quick: 20000, Thorough: 200000}},
+		Assum: []string{"reference model as for C01; where the two routers legitimately differ the model admits both readings", "Content-Length header and field are kept consistent, as a real server delivers them"},
+	},
+	{
+		ID: "C03", Level: "exploration",
+		Rule:  "tables as for C01, restricted by construction to the statement's domain (roots of pairwise different literal/variable shape; same-method routes that differ only in variable names removed; RouterJSR311 with literal roots only; dropped items are counted). A permutation of the services and of each service's routes is drawn with rapid.Permutation; both orders are built and sent the same requests. (i) no eligible route strictly refines the one that ran and no matching root strictly dominates the serving one; (ii) identical outcome (status, route, parameters, Allow) in both orders. Non-trivial: some request has at least two eligible routes or two matching roots and the permutation moved something. Distinct: FNV-64 of the case JSON.",
+		Parts: []partCfg{{Test: "TestC03", Quick: 15000, Thorough: 150000}},
+		Assum: []string{"specificity order as written in the statement (DESIGN.md 3.2 step 2 and 8); incomparable templates are not ranked"},
+	},
+	{
+		ID: "C04", Level: "exploration",
+		Rule:  "tables and requests as for C01 without hostile paths. For every request that ran a route function the parameter map seen by the handler is compared with the bindings the reference model computes from the request path: exactly the declared names of root and route template, each plain/regex/affix variable equal to the URL segment at its position minus affix and verb, a tail equal to the remaining segments joined by '/', and substitution into the full template reproduces the path up to the trailing slash. Non-trivial: the invoked template has at least two variables, a root variable plus a route variable, or a verb/affix/tail. Distinct: FNV-64 of the case JSON.",
+		Parts: []partCfg{{Test: "TestC04", Quick: 20000, Thorough: 200000}},
+		Assum: []string{"values bound to empty segments and the trailing slash of a tail value are not pinned down by the statement and only checked through the round trip"},
 	},
 }
